@@ -5,6 +5,7 @@ var commonAssumptions = []string{
 	"lock objects are not aliased under different access paths (every mutex is a struct field reached through its owner)",
 	"no reflection/unsafe in the analysed packages (utils/xor legacy files excepted)",
 	"user-supplied NIC / ChunkFilter / callback implementations are outside the call graph",
+	"package-level error variables (io.EOF, context.DeadlineExceeded, ErrFull, ...) are non-nil sentinels",
 }
 
 func init() {
